@@ -222,7 +222,9 @@ def prop_cost(case):
     reg = exact_regime(case)
     nx, ny = case['dims']
     mm, ss = reg['M'][0] * reg['M'][1], sxy(case)[0] * sxy(case)[1]
-    return nx * ny * mm * (mm + (mm * ss if reg['ir'] else ss)), mm
+    # (on the impulse-response branch every transfer-function value is a sum of up to mm*ss distinct phases: the products are merged
+    #  term by term, measured ~4x the cost of the count of products)
+    return nx * ny * mm * (mm + (4 * mm * ss if reg['ir'] else ss)), mm
 
 
 def prop_affordable(case, budget=12000):
